@@ -115,6 +115,7 @@ static void gen_decl(vf::Src& src, Case& c, const DeclOpts& o)
             }
         }
         e.env_bound = o.env && src.coin(60);
+        e.group = src.coin(30) ? src.irange(1, 2) : 0;
         c.e.push_back(e);
     }
 }
